@@ -14,7 +14,8 @@ namespace EPV.PuritySites
 builds its result with `etree.Element` / `SubElement` / `.text =` (`fn:parse-xml`,
 `fn:analyze-string` and the node-tree builders only call the etree PARSER / constructors, no write
 site at all). -/
-def builderFunctionPrefixes : List String := ["evaluate__json_to_xml"]
+def builderFunctions : List String :=
+  ["evaluate__json_to_xml", "evaluate__json_to_xml.json_object_to_etree", "evaluate__json_to_xml.value_to_etree"]
 
 /-- files that own the XPath node wrappers (`XPathNode` objects built per context around the
 caller's elements); attribute writes on wrappers are confined to them -/
@@ -93,15 +94,13 @@ def reviewedTokenWrites : List ((String × String × String) × Memo) := [
   (("elementpath/xpath_tokens/maps.py", "XPathMap.keys", "self._map ="), .dynamic),
   (("elementpath/xpath_tokens/maps.py", "XPathMap.values", "self._map ="), .dynamic)]
 
-def startsWithAny (s : String) (ps : List String) : Bool := ps.any fun p => p.isPrefixOf s
-
 /-- is a scanned write site (kind, file, function, site) acceptable? -/
 def treeWriteOk (w : String × String × String × String) : Bool :=
   match w with
   | (kind, file, fn, _) =>
-    if kind == "element" then startsWithAny fn builderFunctionPrefixes
-    else if kind == "xnode" then nodeWrapperFiles.contains file
-    else if kind == "namespaces" || kind == "variables" then reviewedDictWrites.contains w
+    if kind = "element" then decide (fn ∈ builderFunctions)
+    else if kind = "xnode" then decide (file ∈ nodeWrapperFiles)
+    else if kind = "namespaces" ∨ kind = "variables" then decide (w ∈ reviewedDictWrites)
     else false          -- "schema" (or anything else): no write site is accepted
 
 end EPV.PuritySites
